@@ -339,7 +339,8 @@ def run_case(case, ctx):
             raise Violation("constraints-not-satisfied-at-the-end", gmax=gfin, **desc)
         if len(log) >= 30 or converged_early:
             limit = 2e-3 if P["cls"] == "A" else 3e-2
-            if dist > limit and not (P["cls"] == "A" and dist <= 0.05 * d0):
+            # a run that stopped by itself (step-size criterion, tolx = 1e-7) claims convergence: no allowance for "still on its way"
+            if dist > limit and not (P["cls"] == "A" and dist <= 0.05 * d0 and not converged_early):
                 raise Violation("iterates-do-not-approach-the-optimum", dist=dist, initial=d0, cls=P["cls"], **desc)
             ctx.count("convergence_checked")
     if P["nsig"] > 1:
